@@ -68,20 +68,26 @@ def check_answer(driver, cmd, val, wire, t_from=0.0):
 
 
 def state_problems(sim, driver):
+    """Lock / slot state after a scenario.  Internal attributes are looked up defensively: a renamed attribute is not a verdict."""
     d = sim.driver
     out = []
     if d.transaction_lock.locked():
         out.append("transaction_lock still held")
     if driver == "tridonic":
-        sem = d._command_semaphore
-        if getattr(sem, "_value", 2) != 2:
+        sem = getattr(d, "_command_semaphore", None)
+        if sem is not None and getattr(sem, "_value", 2) != 2:
             out.append(f"command semaphore not free ({sem._value}/2)")
-        if d._outstanding:
-            out.append(f"in-flight table not empty: {sorted(d._outstanding)}")
-    if driver == "hasseb" and d._command_lock.locked():
-        out.append("command lock still held")
-    if driver in ("luba", "sci") and d._protocol._tx_lock.locked():
-        out.append("tx lock still held")
+        outst = getattr(d, "_outstanding", None)
+        if outst:
+            out.append(f"in-flight table not empty: {sorted(outst)}")
+    if driver == "hasseb":
+        lk = getattr(d, "_command_lock", None)
+        if lk is not None and lk.locked():
+            out.append("command lock still held")
+    if driver in ("luba", "sci"):
+        lk = getattr(getattr(d, "_protocol", None), "_tx_lock", None)
+        if lk is not None and lk.locked():
+            out.append("tx lock still held")
     return out
 
 
@@ -158,6 +164,9 @@ def loss_case(driver, seed, part, i, res, base_times):
            "status_events": [(round(t, 4), s) for t, s in sim.status_events][:20],
            "opens": [(round(e[1], 4), e[3]) for e in sim.shim.log if e[0] == "open"][:20]}
     try:
+        if simlib.detached(out):
+            res.inconclusive.append('harness detached: ' + str(out))
+            return
         if stalled or not isinstance(out, dict):
             res.violation(f"C17/{driver}/stall-or-crash", f"simulation ended with {'a stall' if stalled else repr(out)}", wit)
             return
@@ -366,6 +375,9 @@ def cancel_case(driver, seed, k, after, res):
     wit = {"driver": driver, "seed": seed, "cancel_at_step": k, "victim": str(log.get("victim_cmd")), "victim_outcome": repr(log.get("victim"))[:80],
            "victim_steps": log.get("steps")}
     try:
+        if simlib.detached(out):
+            res.inconclusive.append('harness detached: ' + str(out))
+            return
         if stalled or not isinstance(out, list):
             res.violation(f"C17/{driver}/stall-after-cancel", f"simulation ended with {'a stall' if stalled else repr(out)} after cancelling a caller at step {k}", wit)
             return
@@ -482,6 +494,9 @@ def silence_case(driver, seed, i, res):
     wit = {"driver": driver, "seed": seed, "case": i, "silence": kind, "command": str(cmd), "result": repr(log.get("result"))[:100],
            "elapsed_virtual_s": round(log.get("elapsed", -1), 4)}
     try:
+        if simlib.detached(out):
+            res.inconclusive.append('harness detached: ' + str(out))
+            return
         if stalled or out is not True:
             res.violation(f"C17/{driver}/hang-on-silence/{kind}", f"send() never returned after the gateway went silent ({kind}): "
                           f"{'stall' if stalled else repr(out)}", wit)
